@@ -500,6 +500,28 @@ fn lock_calls() -> Vec<LockCall> {
             let _ = c.touch("/nope");
             let _ = c.touch("/a");
         })),
+        ("every path-taking call on root-resolving paths", Box::new(|c| {
+            for p in ["/", "", "/d/..", "/d/e/../..", "/./"] {
+                let _ = c.entry(p);
+                let _ = c.exists(p);
+                let _ = c.is_stream(p);
+                let _ = c.is_storage(p);
+                let _ = c.read_storage(p).map(|i| i.count());
+                let _ = c.walk_storage(p).map(|i| i.count());
+                let _ = c.set_state_bits(p, 9);
+                let _ = c.set_storage_clsid(p, uuid::Uuid::from_u128(5));
+                let _ = c.set_created_time(p, web_time::SystemTime::now());
+                let _ = c.set_modified_time(p, web_time::SystemTime::now());
+                let _ = c.touch(p);
+                let _ = c.open_stream(p).map(|_| ());
+                let _ = c.create_storage(p);
+                let _ = c.create_stream(p).map(|_| ());
+                let _ = c.create_new_stream(p).map(|_| ());
+                let _ = c.create_storage_all(p);
+                let _ = c.remove_stream(p);
+                let _ = c.remove_storage(p);
+            }
+        })),
         ("remove_storage_all with content", Box::new(|c| { let _ = c.remove_storage_all("/d"); })),
     ]
 }
@@ -690,6 +712,101 @@ pub fn locks(seed: u64, threads_iters: usize) -> Report {
         rep.note("thread_ops", progress.load(Ordering::Relaxed));
         rep.evaluations += 1;
     }
+    rep
+}
+
+// ---------------------------------------------------------------------------
+// C07 under faults: an operation that fails half-way must not let a LATER operation through
+// another handle touch streams that are not its own
+// ---------------------------------------------------------------------------
+pub fn handle_faults() -> Report {
+    let mut rep = Report::new();
+    let read_all = |c: &mut CompoundFile<SharedBuf>, p: &str| -> Option<Vec<u8>> {
+        let mut v = Vec::new();
+        match c.open_stream(p) {
+            Ok(mut s) => match s.read_to_end(&mut v) { Ok(_) => Some(v), Err(_) => None },
+            Err(_) => None,
+        }
+    };
+    let ops: [&str; 6] = ["a.set_len(0)", "a.set_len(4200)", "a.set_len(100)", "remove_stream(/c)", "create_stream(/c) (overwrite)", "a.write_all(9000 bytes) + flush"];
+    for v in [Version::V3, Version::V4] {
+        for (oi, opname) in ops.iter().enumerate() {
+            let mut k = 0u64;
+            loop {
+                let (buf, mut c) = fresh(v, 4096);
+                c.create_stream("/a").unwrap().write_all(&vec![0xA1u8; 6000]).unwrap();
+                c.create_stream("/small").unwrap().write_all(&[0x51u8; 300]).unwrap();
+                c.create_stream("/c").unwrap().write_all(&vec![0xC3u8; 9000]).unwrap();
+                c.flush().unwrap();
+                let mut a = c.open_stream("/a").unwrap();
+                let mut b = c.create_stream("/b").unwrap();
+                {
+                    let mut ctl = buf.ctl.lock().unwrap();
+                    ctl.fail_kinds = [false, true, true, true];
+                    ctl.seq = 0;
+                    ctl.fail_at = vec![k];
+                    ctl.injected = 0;
+                }
+                let r = catch_unwind(AssertUnwindSafe(|| match oi {
+                    0 => a.set_len(0).is_ok(),
+                    1 => a.set_len(4200).is_ok(),
+                    2 => a.set_len(100).is_ok(),
+                    3 => c.remove_stream("/c").is_ok(),
+                    4 => c.create_stream("/c").is_ok(),
+                    _ => a.write_all(&vec![0xA2u8; 9000]).and_then(|_| a.flush()).is_ok(),
+                }));
+                let injected = buf.ctl.lock().unwrap().injected;
+                {
+                    let mut ctl = buf.ctl.lock().unwrap();
+                    ctl.fail_kinds = [false; 4];
+                    ctl.fail_at.clear();
+                }
+                rep.evaluations += 1;
+                rep.distinct.insert(format!("{:?}-{}-{}", v, oi, k));
+                let what = format!("{:?} {} with raw write/seek call {} failing ({})", v, opname, k, match r { Ok(true) => "Ok", Ok(false) => "Err", Err(_) => "PANIC" });
+                if r.is_err() {
+                    rep.fail(format!("handlefaults: {}", what));
+                    std::mem::forget(a);
+                    std::mem::forget(b);
+                } else {
+                    // what the other streams hold now (whatever the failed call left) ...
+                    let before: Vec<(String, Option<Vec<u8>>)> = ["/a", "/small", "/c"].iter().map(|p| (p.to_string(), read_all(&mut c, p))).collect();
+                    // ... must survive 8000 bytes written through the handle of /b
+                    let data: Vec<u8> = (0..8000usize).map(|i| (i * 3 + 1) as u8 | 1).collect();
+                    let wrote = catch_unwind(AssertUnwindSafe(|| b.write_all(&data).and_then(|_| b.flush()).is_ok()));
+                    match wrote {
+                        Err(_) => rep.fail(format!("handlefaults: {}; then writing through the handle of /b panicked", what)),
+                        Ok(okb) => {
+                            for (p, old) in before.iter() {
+                                if let Some(old) = old {
+                                    match read_all(&mut c, p) {
+                                        Some(now) if now == *old => {}
+                                        Some(now) => {
+                                            let d = now.iter().zip(old.iter()).position(|(x, y)| x != y);
+                                            rep.fail(format!("handlefaults: {}; then 8000 bytes written through the handle of /b: {} changed ({} -> {} bytes, first difference at {:?})", what, p, old.len(), now.len(), d));
+                                        }
+                                        None => rep.fail(format!("handlefaults: {}; then 8000 bytes written through the handle of /b: {} can no longer be read", what, p)),
+                                    }
+                                }
+                            }
+                            if okb {
+                                if read_all(&mut c, "/b").as_deref() != Some(&data[..]) {
+                                    rep.fail(format!("handlefaults: {}; /b does not hold what was written and flushed through its handle", what));
+                                }
+                            }
+                        }
+                    }
+                    drop(a);
+                    drop(b);
+                }
+                if injected == 0 || k > 600 {
+                    break;
+                }
+                k += 1;
+            }
+        }
+    }
+    rep.samples.push("handlefaults: 6 operations on /a or /c with one injected write/seek fault at every raw position, then 8000 bytes through the handle of /b; every other stream must read as it did before that write".into());
     rep
 }
 
